@@ -7,6 +7,7 @@ from common import case_line
 from gen import bytes_upto
 
 LEVEL = "proof"
+COUNTS = ["M"]        # modes of cases.count_thresholds
 BIG_IO = lambda a: "-M" in a        # which command lines of cases.rand_cli the large-input stream keeps
 
 BOUNDS = ["1", "2", "3", "1,2", "1:2", "2:3", "1,3", "2:", "1:", "1,2:", "{1}Z", "A{2}", "{1}x{2}", "{1}x{2}y",
